@@ -92,6 +92,14 @@ def _damages(cls, orig, case, sibling):
             b = bytearray(orig)
             b[pos] ^= 0x41
             out.append((name, bytes(b)))
+    if cls == "metadata":
+        # still JSON, but without the section that lists the snapshots: the independent reader cannot read such a table
+        try:
+            doc = json.loads(orig.decode("utf-8"))
+            doc.pop("snapshots")
+            out.append(("key-removed-snapshots", json.dumps(doc).encode("utf-8")))
+        except Exception:
+            pass
     out.append(("read-error", "ERR"))
     return out
 
@@ -169,7 +177,7 @@ def check_table(case):
                 else:
                     _set(w, path, payload)
                     changed = payload != orig
-                    parse_ok = _parse_ok(cls, payload)
+                    parse_ok = _parse_ok(cls, payload) and not dname.startswith("key-removed")
                 if cls != "data" and payload not in (None, "ERR") and parse_ok:
                     _set(w, path, orig)
                     out["labels"].append("damage-still-parses(excluded)")
